@@ -327,7 +327,9 @@ class C09(Spec):
         bad = ['cmp i1', 'cmp i1 s61', 'cmp f7ff8000000000000 f0000000000000000', 'cmp i9223372036854775808 i0', 'cmp s6100 s61',
                'cmp A2 i1 s61 A0', 'cmp A1 i1 R0', 'cmp tNoSuchType tInt', 'tri i1 i2', 'keys i1 s61', 'sort', 'cmp T1 p1:00000000 T0',
                'cmp R1 A0 i1 R0', 'cmp p1:000000 p1:00000000', 'cmp p4: p4:', 'frob i1 i2', 'cmp i-9223372036854775809 i0', 'cmp A1 i1 A1 s61',
-               'cmp L1 tInt L0', 'cmp i+1 i1', 'cmp i i1', 'cmp A01 i1 A1 i1', 'cmp A i1']
+               'cmp L1 tInt L0', 'cmp i+1 i1', 'cmp i i1', 'cmp A01 i1 A1 i1', 'cmp A i1', 'cmp A00000000000000000001 i1 A1 i1',
+               'cmp R2 i1 i1 s61 i2 R0', 'cmp R1 i1 A0 R0', 'cmp A1_0 i1 A0', 'cmp A4097 A0', 'cmp fFFF0000000000000 f0000000000000000', 'cmp T2 tInt tInt T0',
+               'keys f7ff8000000000001', 'cmp s6 s61', 'cmp p1:0102030 p1:01020304']
         cs.append(Case('illformed', bad))
         return cs
 
